@@ -29,12 +29,12 @@ var Properties = []Property{
 		Explain: "Abstract interpretation of NewMnemonicByEntropy and NewMnemonic over a bit-layout domain: in each of the 5 sizes x 10 languages (both entry points) the value returned is strings.Join(a, sep) where a has 3*len/4 elements, each written exactly once, a[p] = list_K[S<11(W-1-p):+11>] with S = checksum bits (top ENT/32 bits of SHA-256(entropy)[0]) below the entropy bits, list_K the canonical list of language K (digest-checked literal, never written), sep U+3000 for Japanese and U+0020 otherwise. The entropy bits are a symbol, so the result holds for all 2^ENT inputs; the loop is summarised by recurrence R1 (X' = X >> 11), not unrolled.",
 		Trusted: []string{axSHA, axBig, axJoin, axTool, axChecker, "BIP39 parameter table and the ten list digests held in the checker"}},
 	{ID: "C02", Title: "Every valid mnemonic validates", Level: "proof",
-		Rules:   []string{"ANCHOR", "L1", "L1n", "T6", "T6n", "T6v", "T5w", "T3", "T3e", "G1a", "G2a", "G3a", "L2w", "L2", "L3", "L3x", "S2a", "S3", "T2", "T2n", "G4", "G4n", "E1enc", "E1val", "F1"},
+		Rules:   []string{"ANCHOR", "L1", "L1n", "T6", "T6n", "T6v", "T5w", "T3", "T3e", "G1a", "G2a", "G3a", "L2w", "L2", "L3c", "L3x", "S2c", "S3", "T2", "T2n", "G4", "G4n", "E1enc", "E1val", "F1"},
 		Floors:  map[string]int{"T3.maps": 10, "L2.contexts": 50, "L1.contexts": 50},
-		Explain: "Composition of discharged premises: the encoder emits word p = list_K[S<11(W-1-p):+11>] (L1); the separator survives NFKD and is what the validator splits on, words are NFKD-stable and contain no separator (T5,T6); the lookup map is the inverse of the same list (T3); W is accepted (G3); the validator rebuilds acc = I[0]..I[W-1] MSB first, hashes exactly ENT/8 bytes Fixed(acc<CS:>, L) (L2w, L2) and returns nil on the equal edge of Cmp(SHA256(..)<top CS bits>, acc<0:CS>) (L3, S2), which after the lookups is the only condition acceptance depends on, every failure exit there being its other edge (L3x); substituting I[p] := S<11(W-1-p):+11> makes both sides the same bits; IsMnemonicValid is CheckMnemonic == nil (S3).",
+		Explain: "Composition of discharged premises: the encoder emits word p = list_K[S<11(W-1-p):+11>] (L1); the separator survives NFKD and is what the validator splits on, words are NFKD-stable and contain no separator (T5,T6); the lookup map is the inverse of the same list (T3); W is accepted (G3); the validator rebuilds acc = I[0]..I[W-1] MSB first, hashes exactly ENT/8 bytes Fixed(acc<CS:>, L) (L2w, L2) and returns nil on the equal edge of Cmp(SHA256(..)<top CS bits>, acc<0:CS>) (L3c, S2c: the completeness halves of L3 and S2 - a validator that accepts too much fails C03, not this property), which after the lookups is the only condition acceptance depends on, every failure exit there being its other edge (L3x); substituting I[p] := S<11(W-1-p):+11> makes both sides the same bits; IsMnemonicValid is CheckMnemonic == nil (S3).",
 		Trusted: []string{axSHA, axBig, axJoin, axNFKD, axOnce, axTool, axChecker}},
 	{ID: "C03", Title: "Validation never accepts an ill-formed or wrong-checksum mnemonic", Level: "proof",
-		Rules:   []string{"ANCHOR", "F1", "G3", "T3", "T3c", "T5w", "T6v", "L2w", "L2", "L3", "S2a", "S3", "E1val"},
+		Rules:   []string{"ANCHOR", "F1", "G3", "T3", "T3c", "T5w", "T6v", "L2w", "L2", "L3", "S2s", "S3", "E1val"},
 		Floors:  map[string]int{"T3.maps": 10, "L2.contexts": 50, "S2.exits": 100},
 		Explain: "The accept condition is read off the dominators of the only `return nil`: count in {12,15,18,21,24} (exact accept set from the gate analysis), every token found in the map that is the inverse of the language's canonical list, and Cmp == 0 between the top CS bits of SHA-256 over exactly ENT/8 bytes of the recovered entropy and the low CS bits of the token integer. All strings are covered because tokens and lookup results are symbols.",
 		Trusted: []string{axSHA, axBig, axJoin, axNFKD, axOnce, axTool, axChecker}},
@@ -64,14 +64,14 @@ var Properties = []Property{
 		Explain: "All 10 x 2048 words are read from the syntax tree as constants: non-empty, pairwise distinct, free of White_Space and controls, each equal to its own NFKD image, SHA-256 of the list equal to the frozen digest; each list variable is initialiser-only (never written after its declaration, not even from init()); the encoder selects list K for language K and the validator's map K is built as the inverse of that same variable.",
 		Trusted: []string{"list digests frozen in the checker (English = published bip-0039/english.txt digest; the other nine = pinned commit)", axNFKD, axTool, axChecker}},
 	{ID: "C09", Title: "Only the five sizes; sentinel errors otherwise", Level: "proof",
-		Rules:   []string{"ANCHOR", "G1", "G1a", "G1e", "G2", "G2a", "G2s", "G2e", "G2r", "S1", "G4", "G4x", "G4n", "G4nx", "T5w"},
+		Rules:   []string{"ANCHOR", "G1", "G1a", "G1e", "G2", "G2a", "G2s", "G2e", "G2r", "Gp", "S1", "G4", "G4x", "G4n", "G4nx", "T5w"},
 		Floors:  map[string]int{"G1.gate": 1, "G2.gate": 1, "G1.accepted": 5, "G2.accepted": 5, "S1.sentinels": 3},
 		Explain: "Exact reach-set analysis over the full int range: the success exits of NewMnemonicByEntropy / NewMnemonic are reached with exactly {16,20,24,28,32} / {12,15,18,21,24}; every other value reaches only exits returning (\"\", ErrEntropyLen / ErrWordLen); the source is read only with accepted counts; success returns a join of >= 12 non-empty words and nil.",
 		Trusted: []string{axTool, axChecker}},
 	{ID: "C10", Title: "Validation invariant under Unicode-equivalent spellings", Level: "proof",
-		Rules:   []string{"ANCHOR", "F1", "T5w", "T6v", "S3"},
+		Rules:   []string{"ANCHOR", "F1", "T5w", "T6v", "S3", "E1val"},
 		Floors:  map[string]int{"T5.words": 20480},
-		Explain: "Non-interference: the only use of the raw argument of CheckMnemonic / IsMnemonicValid is as the operand of norm.NFKD.String, so the verdict is a function of NFKD(input); every list word is NFKD-stable so normalised input can match; the tokeniser splits on the NFKD image of both separators.",
+		Explain: "Non-interference: the only use of the raw argument of CheckMnemonic / IsMnemonicValid is as the operand of norm.NFKD.String, so the verdict depends on the input only through NFKD(input), and every package variable the validator evaluation reads or hands to a call is never written after initialisation (E1val), so it is a function of NFKD(input) alone; every list word is NFKD-stable so normalised input can match; the tokeniser splits on the NFKD image of both separators.",
 		Trusted: []string{axNFKD, axTool, axChecker}},
 	{ID: "C11", Title: "Seed invariant under Unicode-equivalent spellings", Level: "proof",
 		Rules:   []string{"ANCHOR", "F2n"},
